@@ -318,7 +318,7 @@ c = contract(LL, 'MatrixLight.set_matrix', serves=['C15', 'C07', 'C18'], unwrap=
 def _setup(b, case):
     from pyvc.values import Opaque
     sent = b.ghost('sent', PyList())
-    impl = Opaque('device', {'fire_and_forget': lambda I_, o, a, k: sent.items.append((a[0], a[1], dict(k)))})
+    impl = Opaque('device', {'fire_and_forget': lambda I_, o, a, k: sent.items.append((a[0], a[1], k.get('num_repeats', 1)))})
     impl.native = {'kind': 'generic'}
     h, w = b.sym('int', 'height'), b.sym('int', 'width')
     b.between(h, 1, 16)
@@ -332,6 +332,7 @@ def _setup(b, case):
     return {'self': light, 'matrix': matrix, 'duration': d, '_colors': colors}
 c.setup(_setup)
 c.ensures('one-message-for-the-whole-matrix', "len(ghost('sent')) == 1 and ghost('sent')[0][0] is SetTileState64")
+c.ensures('transmitted-exactly-once', "ghost('sent')[0][2] == 1")      # num_repeats: how often lifxlan puts the packet on the wire
 c.ensures('the-cells-as-given', "ghost('sent')[0][1]['colors'] is _colors and ghost('sent')[0][1]['duration'] == duration")
 c.ensures('the-tile-as-it-is', "ghost('sent')[0][1]['width'] == self._width and ghost('sent')[0][1]['height'] == self._height "
           "and ghost('sent')[0][1]['x'] == 0 and ghost('sent')[0][1]['y'] == 0 and ghost('sent')[0][1]['tile_index'] == 0 and ghost('sent')[0][1]['length'] == 1")
